@@ -416,7 +416,7 @@ class Case:
             pre = {keyf(c): c for c in reads["pre"][opn]}
             post = {keyf(c): c for c in reads["post"][opn]}
             for k, c in pre.items():
-                if k in target:
+                if k in target or (isinstance(c, dict) and c.get("iso_id") in target):
                     continue
                 if k not in post:
                     self.fail("prior-content-lost", f"w={self.wclass} table={opn.split('_')[0]}", {"key": k})
